@@ -159,28 +159,47 @@ inductive EPhase where
 def Node.unlock (n : Node) (tid : Nat) : Node :=
   { n with pages := n.pages.map (fun r => if r.lock == some tid then { r with lock := none } else r) }
 
-/-- the write half of the `Entry` transaction (everything after the select), ending in commit (`done`),
-    rollback + retry (`start`, on gorm.ErrDuplicatedKey) or rollback + error (`failed`) -/
-def entryWrite (E : Env) (now : Nat) (n : Node) (issuer kid : String) (row : Option PageRow) : Node × EPhase :=
-  let cur : PageRow := match row with
-    | some r => r
-    | none => { id := .raw "", issuer := issuer, page := 0, last := E.maxIndex }
+/-- what the write half of the `Entry` transaction (everything after the select) does -/
+inductive WOut where
+  | update (id : Url) (last : Nat)            -- `UpdateColumn("last_issued_index", …)`, commit
+  | create (row : PageRow) (rec : CredRec)    -- new page + its empty signed list, commit
+  | retry (pin : Url)                         -- gorm.ErrDuplicatedKey: rollback, loop again
+  | fail (e : String)                         -- any other error: rollback, return it
+
+/-- the selected row, or for a first-time issuer the literal
+    `credentialIssuerRecord{Issuer: issuer, LastIssuedIndex: maxBitstringIndex, Page: 0}` -/
+def entryCur (E : Env) (issuer : String) (row : Option PageRow) : PageRow :=
+  match row with
+  | some r => r
+  | none => { id := .raw "", issuer := issuer, page := 0, last := E.maxIndex }
+
+def entryDecide (E : Env) (now : Nat) (n : Node) (issuer kid : String) (row : Option PageRow) : WOut :=
+  let cur := entryCur E issuer row
   let last := cur.last + 1
   if last > E.maxIndex then
     let page := cur.page + 1
     let id := n.url issuer page
-    if n.isManaged id then (n, .start (some id))
-    else if !n.dids.contains issuer then (n, .failed "fk")
+    if n.isManaged id then .retry id
+    else if !n.dids.contains issuer then .fail "fk"
     else
       let newRow : PageRow := { id := id, issuer := issuer, page := page, last := 0 }
       match updateCredential E now newRow [] kid with
-      | .ok (_, rec) =>
-        if (n.cred? id).isSome then (n, .start (some id))
-        else ({ n with pages := newRow :: n.pages, creds := rec :: n.creds }, .done id 0)
-      | .err e => (n, .failed e)
-      | .panic s => (n, .failed ("panic:" ++ s))
-  else
-    ({ n with pages := n.pages.map (fun r => if r.id == cur.id then { r with last := last } else r) }, .done cur.id last)
+      | .ok (_, rec) => if (n.cred? id).isSome then .retry id else .create newRow rec
+      | .err e => .fail e
+      | .panic s => .fail ("panic:" ++ s)
+  else .update cur.id last
+
+def Node.applyOut (n : Node) : WOut → Node × EPhase
+  | .update id last =>
+    ({ n with pages := n.pages.map (fun r => if r.id == id then { r with last := last } else r) }, .done id last)
+  | .create row rec => ({ n with pages := row :: n.pages, creds := rec :: n.creds }, .done row.id 0)
+  | .retry pin => (n, .start (some pin))
+  | .fail e => (n, .failed e)
+
+/-- the write half of the `Entry` transaction, ending in commit (`done`), rollback + retry (`start`, on
+    gorm.ErrDuplicatedKey) or rollback + error (`failed`) -/
+def entryWrite (E : Env) (now : Nat) (n : Node) (issuer kid : String) (row : Option PageRow) : Node × EPhase :=
+  n.applyOut (entryDecide E now n issuer kid row)
 
 structure EThread where
   issuer : String
@@ -295,6 +314,34 @@ def credential (E : Env) (now : Nat) (n : Node) (issuer : String) (page : Nat) :
         | .ok (vc, rec) => .ok (vc, n.putCred rec)
         | .err x => .err x
         | .panic s => .panic s
+
+/-! ## schedules on the issuer node -/
+
+/-- what can happen on an issuer node: a new `Entry` call starts, a running one takes its read or its write step,
+    a `Revoke` / `Credential` transaction runs, time passes -/
+inductive EAct where
+  | spawn (issuer : String)
+  | read (tid : Nat) (sel : Option Url)
+  | write (tid : Nat)
+  | revoke (credId : String) (e : StatusEntry)
+  | serve (issuer : String) (page : Nat)
+  | tick (d : Nat)
+
+def eStep (E : Env) (w : EWorld) : EAct → EWorld
+  | .spawn issuer => { w with threads := w.threads ++ [{ issuer := issuer }] }
+  | .read tid sel => eRead E w tid sel
+  | .write tid => eWrite E w tid
+  | .revoke credId e =>
+    match revoke E w.now w.node credId e with
+    | .ok n => { w with node := n }
+    | _ => w
+  | .serve issuer page =>
+    match credential E w.now w.node issuer page with
+    | .ok (_, n) => { w with node := n }
+    | _ => w
+  | .tick d => { w with now := w.now + d }
+
+def eRun (E : Env) (w : EWorld) (acts : List EAct) : EWorld := acts.foldl (eStep E) w
 
 /-! ## verifier side -/
 
@@ -496,5 +543,43 @@ def verify (E : Env) (i : Bool) (w : World) (c : Cred) : Verdict × World :=
   match statusVerify E i w c with
   | (.revoked, w') => (.revoked, w')
   | (_, w') => (.ok, w')
+
+/-! ## histories on two nodes -/
+
+/-- what can happen in the two-node world. `entryTx` is the write half of some `Entry` call with whatever row its select
+    returned (an over-approximation that needs no thread bookkeeping; used for the theorems that are not about uniqueness).
+    `verify` also stands for a credential received from the network (ambassador `vcCallback` verifies before storing);
+    `register` is a revocation received from the network (ambassador `jsonLDRevocationCallback`). -/
+inductive Act where
+  | entryTx (i : Bool) (issuer : String) (row : Option PageRow)
+  | revoke (i : Bool) (credId : String) (e : StatusEntry)
+  | serve (i : Bool) (issuer : String) (page : Nat)
+  | verify (i : Bool) (c : Cred)
+  | register (i : Bool) (r : Revocation)
+  | host (url : String) (f : Nat → Fetch)
+  | tick (d : Nat)
+
+def step (E : Env) (K : KeyEnv) (w : World) : Act → World
+  | .entryTx i issuer row =>
+    match E.keyOf issuer with
+    | none => w
+    | some kid => w.set i (entryWrite E w.now (w.get i) issuer kid row).1
+  | .revoke i credId e =>
+    match revoke E w.now (w.get i) credId e with
+    | .ok n => w.set i n
+    | _ => w
+  | .serve i issuer page =>
+    match credential E w.now (w.get i) issuer page with
+    | .ok (_, n) => w.set i n
+    | _ => w
+  | .verify i c => (verify E i w c).2
+  | .register i r =>
+    match registerRevocation K (w.get i) r with
+    | .ok n => w.set i n
+    | _ => w
+  | .host url f => { w with hosts := alPut w.hosts url f }
+  | .tick d => { w with now := w.now + d }
+
+def run (E : Env) (K : KeyEnv) (w : World) (acts : List Act) : World := acts.foldl (step E K) w
 
 end Nuts.C11
